@@ -102,3 +102,20 @@ reg('C12', 'exploration',
     'look like headers, sets needing exactly 1..5 carriers, seeded sets of up to 60 tags in shuffled insertion order, generated '
     'configurations with other carrier bits, latin_1 and EBCDIC. Held on the executions produced.',
     'Trusts vmon/ref/codec.py (pack_pds, lenient decoder). PDS sets exceeding the configured carriers are outside the statement.')
+
+reg('C16', 'exploration',
+    'runtime monitor: real mask() over every length and mask character; real loads / IpmReader under configurations that place the PAN or PAN-PREFIX processor on each variable element, every returned value searched for the clear card number',
+    'mask(): every card-number length 10..40 x digit / arbitrary-character numbers x every printable ASCII mask character plus '
+    'seeded Latin-1 ones. Decode: the processor is placed on each variable-length text element of the packaged configuration in '
+    'turn (and on generated configurations), latin_1 / cp500 / cp037, through loads, IpmReader and blocked IpmReader; the '
+    'element must come back masked / as its nine-character prefix and the clear number (whole, without check digit, middle '
+    'digits; as text, bytes or hex) must occur in no value of the returned dict. Held on the executions produced.',
+    'Trusts vmon/ref/codec.py encoder and vmon/ref/blocking.py to build the inputs. Other elements are letters-only so a hit is a leak.')
+
+reg('C17', 'exploration',
+    'runtime monitor: real ipm_info observed on files written by the real IpmWriter with every block count 1..12 and 50+, six codecs, both formats; invalid-input classes enumerated at their boundaries',
+    'Message lists are sized so blocked files have exactly 1,2,...,12 blocks (each enumerated) and 50/53/64, first record small, '
+    'large and spanning the first block boundary, MTI digits varied, x {latin_1, ascii, cp1252, cp500, cp037, cp1140} x {VBS, '
+    '1014}. Invalid classes: every length 0..23, the 24-byte header, first length max / max+1, every bit 2..128 alone in the '
+    'first bitmap. Unblocked files with 0x40 0x40 at bytes 1012-1013 are not judged on the blocking answer.',
+    'Files come from the real IpmWriter under the packaged configuration; vmon/ref/codec.py is used only to size them.')
